@@ -152,18 +152,19 @@ impl<'a> TypeShareVisitor<'a> {
             .map(|s| s.as_str())
             .collect::<HashSet<_>>();
 
-        // Lookup a type name against parsed imports.
+        // Lookup a type name against parsed imports. Modules of one file can import the
+        // same name from different crates: keep every candidate, picking "the first" of a
+        // hash set would make the generated imports differ from run to run.
         let find_type = |name: &str| {
             let found = self
                 .parsed_data
                 .import_types
                 .iter()
-                .find(|imp| imp.type_name == name)
-                .into_iter()
-                .next()
-                .cloned();
+                .filter(|imp| imp.type_name == name)
+                .cloned()
+                .collect::<Vec<_>>();
 
-            // if found.is_none() {
+            // if found.is_empty() {
             //     debug!(
             //         "Failed to lookup \"{name}\" in crate \"{}\" for file \"{}\"",
             //         self.parsed_data.crate_name,
